@@ -134,3 +134,73 @@ def run(chk, pid):
                        detail=dict(detail, reason='the service reference escapes / is accessed dynamically'))
     else:
         chk.obligation(name, 'PythiaServicer.*', 'frame', report.PROVED, dt, detail=detail)
+
+
+def _always_raises(stmts):
+    """every path through the statement list ends in `raise`"""
+    for st in stmts:
+        if isinstance(st, ast.Raise):
+            return True
+        if isinstance(st, ast.If) and st.orelse and _always_raises(st.body) and _always_raises(st.orelse):
+            return True
+        if isinstance(st, (ast.Return, ast.Continue, ast.Break)):
+            return False
+    return False
+
+
+def replay_swallowed(exc_name, rpc):
+    """Native run: the early-stopping policy raises `exc_name`; the caller must get an error, not an answer."""
+    sc = {'backend': 'ram', 'policy': {'suggest': [{'deliver': '+0'}], 'early_stop': [{'raise': exc_name}]},
+          'steps': [{'rpc': 'CreateStudy'}, {'rpc': 'SuggestTrials', 'count': 1, 'client': 'w'},
+                    {'rpc': 'CheckTrialEarlyStoppingState', 'trial': 1}]}
+    env = dict(os.environ)
+    env['VERIF_REPO'] = source.REPO
+    try:
+        r = subprocess.run(['/venv/bin/python', os.path.join(report.VERIF, 'replay', 'service_replay.py'), '-'], input=json.dumps(sc),
+                           capture_output=True, text=True, timeout=600, env=env, cwd=report.VERIF)
+        out = json.loads(r.stdout.strip().splitlines()[-1])
+    except Exception as e:      # replay trouble is never a verdict
+        return None, {'error': repr(e)}
+    last = out['results'][-1]
+    return bool(last.get('ok')), {'scenario': sc, 'result': last}
+
+
+def run_reporting(chk, pid):
+    """`<pid>.PythiaServicer.<Rpc>.policy_failure_reported`: in PythiaServicer.Suggest / EarlyStop every exception handler
+    guarding the call of the policy (`.suggest(` / `.early_stop(`) re-raises on every path, so a failing algorithm is reported
+    to the servicer for an exception of ANY type (the servicer's own handling of that report is under contract in C06)."""
+    try:
+        ci = source.ModuleInfo.get(MODULES[0]).classes['PythiaServicer']
+    except (KeyError, FileNotFoundError) as e:
+        chk.error('extract.PythiaServicer', 'class not found in the current tree: %r' % (e,))
+        return
+    for rpc, meth in (('Suggest', 'suggest'), ('EarlyStop', 'early_stop')):
+        fn = ci.methods.get(rpc)
+        if fn is None:
+            chk.error('extract.PythiaServicer.%s' % rpc, 'method not found')
+            continue
+        t0 = time.time()
+        calls = [n for n in ast.walk(fn) if isinstance(n, ast.Call) and isinstance(n.func, ast.Attribute) and n.func.attr == meth]
+        if not calls:
+            chk.error('vacuity.PythiaServicer.%s' % rpc, 'no call of policy.%s() found (binding lost?)' % meth)
+            continue
+        bad = []
+        for tr in [n for n in ast.walk(fn) if isinstance(n, ast.Try)]:
+            guarded = any(c in list(ast.walk(ast.Module(body=tr.body, type_ignores=[]))) for c in calls)
+            if not guarded:
+                continue
+            for h in tr.handlers:
+                if not _always_raises(h.body):
+                    bad.append('handler `except %s` (line %d) around policy.%s() does not re-raise on every path' % (
+                        ast.unparse(h.type) if h.type is not None else '', h.lineno, meth))
+        name = '%s.PythiaServicer.%s.policy_failure_reported' % (pid, rpc)
+        if not bad:
+            chk.obligation(name, 'PythiaServicer.' + rpc, 'frame', report.PROVED, time.time() - t0, detail={'policy_calls': len(calls)})
+            continue
+        reproduced, rr = (None, None)
+        if rpc == 'EarlyStop':
+            m = [b for b in bad]
+            exc = 'NotImplementedError' if any('NotImplementedError' in b for b in m) else 'ValueError'
+            reproduced, rr = replay_swallowed(exc, rpc)
+        chk.obligation(name, 'PythiaServicer.' + rpc, 'frame', report.VIOLATED, time.time() - t0, model='\n'.join(bad),
+                       replay={'offending_handlers': bad, 'native_run': rr}, reproduced=True if reproduced else None)
